@@ -7,6 +7,7 @@ import (
 	"go/types"
 
 	"github.com/lopolopen/shoot/internal/shoot"
+	"github.com/lopolopen/shoot/internal/tools/logx"
 )
 
 const SubCmd = "rest"
@@ -38,10 +39,31 @@ func (g *Generator) MakeData(typeName string) (any, bool) {
 		g.CommonFlags().CmdLine,
 		g.CommonFlags().Version,
 	)
+	if !g.hasClient(typeName) {
+		logx.Fatalf("type %s is not an interface embedding shoot.RestClient", typeName)
+	}
 	g.cookClient(typeName)
 	g.data.SetTypeName(typeName)
 	g.data.SetPackageName(g.Pkg().Name)
 	return g.data, false
+}
+
+// hasClient reports whether the package declares a RestClient interface of that name
+func (g *Generator) hasClient(typeName string) bool {
+	found := false
+	for _, f := range g.Pkg().Syntax {
+		ast.Inspect(f, func(n ast.Node) bool {
+			if found {
+				return false
+			}
+			if g.testNode(typeName, n) {
+				found = true
+				return false
+			}
+			return true
+		})
+	}
+	return found
 }
 
 func (g *Generator) ListTypes() []string {
